@@ -1,7 +1,7 @@
 (* C07/ProofsCoop.v — CooperativeExperience: every node row mirrors the part of the history that
    maps to it (Welford algebra reused from ProofsExp.v). *)
 From Coq Require Import List Arith ZArith QArith Bool Lia Lqa.
-From AIT Require Import Base.Qx C07.Model C07.Spec C07.ProofsExp C07.ProofsMl.
+From AIT Require Import Base.Qx C07.Model C07.Spec C07.ProofsExp C07.ProofsMl C07.ProofsExtra.
 Import ListNotations.
 Local Open Scope Q_scope.
 
@@ -110,4 +110,46 @@ Proof.
     apply IH; [exact Hr| apply cmirrors_step; assumption]. }
   destruct (G ops (cexp_new g) [] Hok (cmirrors_new g)) as (Ht & _ & H).
   split; [exact Ht|]. intros i Hi id Hid. destruct (H i Hi) as (_ & _ & _ & R). apply R; exact Hid.
+Qed.
+
+(* ------------------------------------------------------------------ Factored::Bandit::Experience *)
+Definition fbmirrors (A : list nat) (deps : list (list nat)) (e : fbexp) (h : list (list nat * list Q)) : Prop :=
+  fb_ts e = length h /\ length (fb_nodes e) = length deps /\
+  forall i, (i < length deps)%nat -> bmirrors (pspace (nth i deps []) A) (fbnode e i) (map (fbproj A deps i) h).
+
+Lemma fbmirrors_new : forall A deps, fbmirrors A deps (fbexp_new A deps) [].
+Proof.
+  intros A deps. unfold fbmirrors, fbexp_new; cbn [fb_ts fb_nodes]. rewrite map_length.
+  split; [reflexivity|]. split; [reflexivity|]. intros i Hi. unfold fbnode; cbn [fb_nodes].
+  rewrite (nth_map_lt _ _ (fun d => bexp_new (pspace d A)) [] (bexp_new 0) deps i Hi). apply bmirrors_new.
+Qed.
+
+Lemma fbmirrors_step : forall A deps e h o, fbop_ok A deps o = true -> fbmirrors A deps e h ->
+  fbmirrors A deps (fbexp_step A deps e o) (fbhist_step h o).
+Proof.
+  intros A deps e h [a rw|] Hok (Ht & Hl & H); cbn [fbexp_step fbhist_step]; [|apply fbmirrors_new].
+  unfold fbmirrors, fbexp_record; cbn [fb_ts fb_nodes]. rewrite map_length, seq_length, app_length. cbn [length].
+  split; [lia|]. split; [reflexivity|]. intros i Hi. unfold fbnode at 1; cbn [fb_nodes].
+  rewrite nth_map_seq by exact Hi. rewrite map_app. cbn [map fbproj fst snd].
+  cbn [fbop_ok] in Hok. rewrite forallb_forall in Hok. specialize (Hok i ltac:(apply in_seq; lia)).
+  apply (bmirrors_step _ (fbnode e i) (map (fbproj A deps i) h) (BRecord (pidx (nth i deps []) A a) (nth i rw 0))); [exact Hok| apply H; exact Hi].
+Qed.
+
+Lemma fbandit_welford_exact_lemma : forall A deps ops, forallb (fbop_ok A deps) ops = true ->
+  let e := fbexp_after A deps ops in let h := fbhist_of ops in
+  fb_ts e = length h /\
+  forall i, (i < length deps)%nat -> forall arm, (arm < pspace (nth i deps []) A)%nat ->
+    let b := fbnode e i in let hi := map (fbproj A deps i) h in
+    nth arm (b_vis b) 0%nat = length (arm_rewards hi arm) /\
+    nth arm (b_avg b) 0 == mean (arm_rewards hi arm) /\
+    nth arm (b_m2 b) 0 == m2 (arm_rewards hi arm).
+Proof.
+  intros A deps ops Hok. cbn zeta. unfold fbexp_after, fbhist_of.
+  assert (G : forall ops e h, forallb (fbop_ok A deps) ops = true -> fbmirrors A deps e h ->
+              fbmirrors A deps (fold_left (fbexp_step A deps) ops e) (fold_left fbhist_step ops h)).
+  { induction ops0 as [|o ops0 IH]; intros e h Hr Hm; cbn [fold_left]; [exact Hm|].
+    cbn [forallb] in Hr. apply andb_true_iff in Hr. destruct Hr as [Ho Hr].
+    apply IH; [exact Hr| apply fbmirrors_step; assumption]. }
+  destruct (G ops (fbexp_new A deps) [] Hok (fbmirrors_new A deps)) as (Ht & _ & H).
+  split; [exact Ht|]. intros i Hi arm Harm. destruct (H i Hi) as (_ & _ & _ & _ & R). apply R; exact Harm.
 Qed.
